@@ -249,6 +249,16 @@ pub fn generate(seed: u64, prof: &GenProfile) -> History {
                 bel[c].has_snap = bel[c].has_snap || b.len > 0;
                 // snapshot payloads are always tagged so that every upload has distinct bytes
                 let len = if prof.aligned { 24 } else if rng.pct(3) { 300_000 } else { 16 + rng.usize(120) };
+                // after a snapshot upload that names another client's version, that client often
+                // uploads a snapshot for the very same version
+                if let IdRef::Back(o, kk) = vid {
+                    if o != c && rng.pct(50) {
+                        ops.push(Op { client: c, kind: OpKind::AddSnapshot { vid, pay: PaySpec::new(len, 9, uniq) } });
+                        uniq = uniq.wrapping_add(1);
+                        ops.push(Op { client: o, kind: OpKind::AddSnapshot { vid: IdRef::Back(o, kk), pay: PaySpec::new(len, 9, uniq) } });
+                        continue;
+                    }
+                }
                 OpKind::AddSnapshot { vid, pay: PaySpec::new(len, 9, uniq) }
             }
             _ => OpKind::GetSnapshot,
